@@ -12,7 +12,7 @@ from .base import Outcome
 from .interp_base import InterpProp
 
 PRIORITIES = [None, None, None, "0.9", "0.5", "0.1"]
-LOOPS = [None, None, None, "A", "B", "NEW"]
+LOOPS = [None, None, None, "A", "B", "NEW", "main"]  # "main": a loop NAMED like the main flow is a loop of its own all the same
 
 
 def program_for(sc):
